@@ -52,6 +52,11 @@ def gen_groups(ctx):
     groups.extend(X.gen_solver_groups(rng, ctx.quick))
     # data in small units: eigenvalues of X^T X between rcond and 1e-6
     groups.extend(X.gen_smallunit_groups(rng, ctx.quick))
+    # round 4: designs with exactly / numerically repeated eigenvalues (nestedness inside an eigenspace)
+    groups.extend(X.gen_repeated_groups(rng, ctx.quick))
+    # round 4: integer-valued centred data (float64 here; other presentations in run_presentations)
+    ctx.c14_int_groups = X.gen_int_groups(rng, ctx.quick)
+    groups.extend(ctx.c14_int_groups)
     return groups
 
 
@@ -240,6 +245,8 @@ def run(ctx):
         report(ctx, what, robj, found_input=found)
     # extension (round 4): fit_transform against fit().transform() and the model's transform
     ft_stats = X.run_fit_transform(ctx, report)
+    # extension (round 4): the same data as int64 / int32 / list / Fortran order / float32
+    pres_stats = X.run_presentations(ctx, report, ctx.c14_int_groups)
     # verdicts
     dev_max = [0.0] * len(P.OUTPUT_NAMES)
     res_max = [0.0] * len(P.RESIDUAL_NAMES)
@@ -307,7 +314,7 @@ def run(ctx):
                    "numpy eigh/svd/lstsq answers are accepted as oracle hints only after their hypotheses' residuals are checked on the float side (eps %g)" % P.EPS_HYP,
                    "layer-D model coq/Model/PCovRFit.v of fit's control flow and shapes: tied by the exact family fitctl (error kind recognised by message; sklearn's coef_ shape is an oracle contract checked per run)"],
                evaluations=len(cases) + fitctl_stats["cases"], distinct_nontrivial=nontrivial,
-               fitctl=fitctl_stats, refit=refit_stats, fit_transform=ft_stats,
+               fitctl=fitctl_stats, refit=refit_stats, fit_transform=ft_stats, presentations=pres_stats,
                rule="centred/offset X of families %s, every k, both spaces; non-trivial = distinct fit compared inside Coq with mixing > 0 and k < numeric rank of the modified matrix (solvers full/arpack/randomized/auto); the fitctl configurations are counted in evaluations only" % ",".join(P.FAMILIES),
                traces_validated_against_impl=agree + fitctl_agree,
                samples=[dict(case=case_replay(cases[i][0], cases[i][1]), report=reports[i]) for i in sample_ids],
@@ -321,6 +328,10 @@ def run(ctx):
 
 def replay(ctx, obj):
     c = obj["case"]
+    if "presentation" in c:
+        msg = X.replay_presentation(c["presentation"])
+        print("replay:", msg or "property holds on this input now")
+        return 1 if msg else 0
     if "fit_transform" in c:
         msg = X.replay_fit_transform(c["fit_transform"])
         print("replay:", msg or "property holds on this input now")
